@@ -139,11 +139,17 @@ func c15BuildHost(i, kind int, withTime bool) *c15Host {
 		return h
 	}
 	h.first, h.last = c15T0+c15First[i], c15T0+c15Last[i]
-	h.ifaces = []string{"eth0"}
-	ownIface := "eth0"
-	if i%2 == 1 {
+	// every host captures on eth1 (the interface of the shared rows); the lists differ otherwise, so that the
+	// merged interface list is built from lists that are neither equal nor nested in arrival order
+	h.ifaces = []string{"eth1"}
+	ownIface := "eth1"
+	switch i % 3 {
+	case 1:
 		h.ifaces = []string{"eth0", "eth1"}
-		ownIface = "eth1"
+		ownIface = "eth0"
+	case 2:
+		h.ifaces = []string{"eth1", "eth2"}
+		ownIface = "eth2"
 	}
 	h.stats.BytesLoaded = 10000 * uint64(i+1)
 	h.stats.BytesDecompressed = 30000*uint64(i+1) + 1
@@ -169,9 +175,9 @@ func c15BuildHost(i, kind int, withTime bool) *c15Host {
 		h.rows = append(h.rows, r)
 	}
 	shared := []c15Row{
-		{ts: ts(300), iface: "eth0", host: "shared", hid: "id-shared", sip: "10.0.0.1", dport: 80},
-		{ts: ts(600), iface: "eth0", host: "shared", hid: "id-shared", sip: "10.0.0.2", dport: 443},
-		{ts: ts(900), iface: "eth0", host: "shared", hid: "id-shared", sip: "10.0.0.3", dport: 53},
+		{ts: ts(300), iface: "eth1", host: "shared", hid: "id-shared", sip: "10.0.0.1", dport: 80},
+		{ts: ts(600), iface: "eth1", host: "shared", hid: "id-shared", sip: "10.0.0.2", dport: 443},
+		{ts: ts(900), iface: "eth1", host: "shared", hid: "id-shared", sip: "10.0.0.3", dport: 53},
 	}
 	own := c15Row{ts: ts(600 + 300*int64(i)), iface: ownIface, host: h.name, hid: "id-" + h.name, sip: fmt.Sprintf("10.1.0.%d", i+1), dport: 8080}
 	switch kind {
@@ -184,9 +190,9 @@ func c15BuildHost(i, kind int, withTime bool) *c15Host {
 		if withTime {
 			// same attributes as shared[0] at another 5m block: 600 falls into the same 15m bin, 1200 into the next
 			if i%2 == 0 {
-				add(2, c15Row{ts: ts(600), iface: "eth0", host: "shared", hid: "id-shared", sip: "10.0.0.1", dport: 80})
+				add(2, c15Row{ts: ts(600), iface: "eth1", host: "shared", hid: "id-shared", sip: "10.0.0.1", dport: 80})
 			} else {
-				add(2, c15Row{ts: ts(1200), iface: "eth0", host: "shared", hid: "id-shared", sip: "10.0.0.1", dport: 80})
+				add(2, c15Row{ts: ts(1200), iface: "eth1", host: "shared", hid: "id-shared", sip: "10.0.0.1", dport: 80})
 			}
 		}
 		add(3, own)
